@@ -39,7 +39,8 @@ PROP = dict(
           "every byte value) must render it: bin() = the bytes, hex() = their hex digits. "
           "Non-trivial: digest inputs of length >= 56 (the padding spills into a second block or the input is multi-block); chain "
           "cases with a split strictly inside the input. Distinct by (length, pattern) / content hash / (length, split)."),
-    assumptions=["inputs up to 1 MiB (2 MiB accepted by the replay decoder)",
+    assumptions=["the render subcheck assigns the digest state words through whichever public member form exists (a0..d0 or h[] for MD5, h[] for SHA-1 / SHA-256); where none exists its cases are excluded (counted)",
+                 "inputs up to 1 MiB (2 MiB accepted by the replay decoder)",
                  "hex() is compared case-insensitively (phosg prints upper case)",
                  "the results are functions of the message alone: the process locale (global C++ locale, setlocale) and errno are ambient state that must not show in bin()/hex()",
                  "subcheck render assigns the public state words (a0..d0, h[]) of a hash object and requires bin()/hex() to render that value (MD5: little-endian words, "
